@@ -54,6 +54,15 @@ def to_wsgi_str(s: bytes) -> str:
     return s.decode("latin1")
 
 
+def _path_bytes(path: str) -> bytes:
+    # The request path is the raw bytes decoded as latin-1; recover them so
+    # that non-ASCII bytes are not re-encoded as UTF-8 by url_unescape.
+    try:
+        return path.encode("latin1")
+    except UnicodeEncodeError:
+        return path.encode("utf-8")
+
+
 class WSGIContainer:
     r"""Makes a WSGI-compatible application runnable on Tornado's HTTP server.
 
@@ -228,7 +237,7 @@ class WSGIContainer:
             "REQUEST_METHOD": request.method,
             "SCRIPT_NAME": "",
             "PATH_INFO": to_wsgi_str(
-                escape.url_unescape(request.path, encoding=None, plus=False)
+                escape.url_unescape(_path_bytes(request.path), encoding=None, plus=False)
             ),
             "QUERY_STRING": request.query,
             "REMOTE_ADDR": request.remote_ip,
